@@ -8,7 +8,7 @@ impl KStringCow {
     #[verifier::external_body]
     pub fn len(&self) -> (r: usize) ensures r == self.byte_len() { unimplemented!() }
     #[verifier::external_body]
-    pub fn into_owned(self) -> KString { unimplemented!() }
+    pub fn into_owned(self) -> (r: KString) ensures r.view() == self.chars_view() { unimplemented!() }
     #[verifier::external_body]
     pub fn chars(&self) -> (r: CharIter) ensures r.rest() == self.chars_view() { unimplemented!() }
 }
